@@ -131,6 +131,21 @@ fn cases() -> Vec<Case> {
         case("type filter in a shared function, mixed arrays", NONE, "shared := (a: [int|string]) -> [int] { return a~ ? int $] }", &[one!("(shared([1, \"a\"]), shared([2]))"), one!("(shared([\"b\", 3]), shared([\"c\"]))")], Some(2), false),
         case("if-set in shared code over a mixed array", NONE, "", &[one!("{ s := mut 0; for e in [1, \"a\", 2]~ { if q: int = e { s += q } }; *s }"), one!("{ s := mut 0; for e in [1, \"a\", 2]~ { if q: int = e { s += q } }; *s }")], Some(2), false),
         case("if-set in a shared function x3 (bound 2)", NONE, "shared := (v: int|string|float) -> int { if q: int = v { return q + 1 }; return 0 }", &[one!("(shared(1), shared(2))"), one!("(shared(\"a\"), shared(\"b\"))"), one!("(shared(1.5), shared(3))")], Some(2), true),
+        // 9. pure operations on *different* data in different threads (a process-wide memo of the
+        //    last operand - string characters, a type, a parsed helper - would couple the runs)
+        case("string indexing, different strings", NONE, "shared := (s: string, i: int) -> string { return s[i] + s[i + 1] }", &[one!("(shared(\"abc\", 0), shared(\"abc\", 1))"), one!("(shared(\"xyz\", 0), shared(\"uv\", 0))")], Some(3), false),
+        case("string slicing and length, different strings", NONE, "shared := (s: string) -> any { return (s[1:], s[::-1], std.len(s)) }", &[one!("(shared(\"abc\"), shared(\"abc\"))"), one!("(shared(\"wxyz\"), shared(\"é\"))")], Some(2), false),
+        case("array indexing and slicing, different arrays", NONE, "shared := (a: [int], i: int) -> any { return (a[i], a[i:], std.len(a)) }", &[one!("(shared([1, 2, 3], 0), shared([1, 2, 3], 1))"), one!("(shared([7, 8], 1), shared([9], 0))")], Some(2), false),
+        case("struct and tuple access, different values", NONE, "shared := (s: struct{a: int, b: string}, t: (int, string)) -> any { return (s.a, s.b, t.0, t.1) }", &[one!("(shared(struct{ a := 1, b := \"x\" }, (1, \"x\")), shared(struct{ a := 2, b := \"y\" }, (2, \"y\")))"), one!("(shared(struct{ a := 3, b := \"z\" }, (3, \"z\")), shared(struct{ a := 4, b := \"w\" }, (4, \"w\")))")], Some(2), false),
+        case("stdlib string helpers, different strings", NONE, "shared := (s: string) -> any { return (std.string.to_uppercase(s), std.string.split(s, \"b\"), std.convert.to_string(std.len(s))) }", &[one!("(shared(\"abc\"), shared(\"abc\"))"), one!("(shared(\"xby\"), shared(\"q\"))")], Some(2), false),
+        case("equality and type tests, different values", NONE, "shared := (v: any, w: any) -> any { m := match v { q: [int] => 1, q: struct{a: int} => 2, q: (int, int) => 3, => 0, }; return (v == w, v != w, m) }", &[one!("(shared([1], [1]), shared(struct{ a := 1 }, struct{ a := 1 }))"), one!("(shared((1, 2), (1, 3)), shared(\"s\", [1.5]))")], Some(2), false),
+        // 10. the file tree is shared state outside the interpreter: operations on *different*
+        //     files in different threads give what each gives alone (every std::fs call of the
+        //     sources passes a common scheduling point, see instrument.py)
+        case("fs: writes to different files", NONE, "", &[one!("(std.fs.write_to_file(\"t/a.txt\", \"A\"), std.fs.file_read_to_string(\"t/a.txt\"))"), one!("(std.fs.write_to_file(\"t/b.txt\", \"B\"), std.fs.file_read_to_string(\"t/b.txt\"))")], Some(3), false),
+        case("fs: write and copy of different files", NONE, "", &[one!("(std.fs.write_to_file(\"t/a.txt\", \"A\"), std.fs.copy_file(\"t/a.txt\", \"t/a2.txt\"), std.fs.file_read_to_string(\"t/a2.txt\"))"), one!("(std.fs.write_to_file(\"t/d/b.txt\", \"B\"), std.fs.file_read_to_string(\"t/d/b.txt\"))")], Some(3), false),
+        case("fs: directories and files side by side", NONE, "", &[one!("(std.fs.create_dir_all(\"t/x/y\"), std.fs.write_to_file(\"t/x/y/f\", \"F\"), std.fs.file_read_to_string(\"t/x/y/f\"))"), one!("(std.fs.rename(\"t/old.txt\", \"t/new.txt\"), std.fs.file_read_to_string(\"t/new.txt\"), std.fs.remove_file(\"t/new.txt\"))")], Some(3), false),
+        case("fs: shared function writing the file it is given", NONE, "shared := (p: string, v: string) -> any { std.fs.write_to_file(p, v); return std.fs.file_read_to_string(p) }", &[one!("(shared(\"t/a.txt\", \"A1\"), shared(\"t/a.txt\", \"A2\"))"), one!("(shared(\"t/b.txt\", \"B1\"), shared(\"t/b.txt\", \"B2\"))")], Some(2), false),
         // deeper thorough-only explorations
         case("three threads, two ops each (bound 2)", C0, "", &[("{ c += 1; c *= 2 }", &["c += 1", "c *= 2"]), ("{ c += 3; c -= 1 }", &["c += 3", "c -= 1"]), ("{ c *= 3; c += 5 }", &["c *= 3", "c += 5"])], Some(2), true),
         case("two threads, four ops each (bound 3)", C0, "", &[("{ c += 1; c *= 2; c -= 3; c += 7 }", &["c += 1", "c *= 2", "c -= 3", "c += 7"]), ("{ c *= 5; c += 2; c /= 2; c -= 1 }", &["c *= 5", "c += 2", "c /= 2", "c -= 1"])], Some(3), true),
@@ -152,6 +167,12 @@ struct Env {
 }
 
 fn fresh_env(case: &Case) -> Env {
+    if case.name.starts_with("fs:") {
+        // every execution starts from the same file tree (the harness's own std::fs: no scheduling point)
+        let _ = std::fs::remove_dir_all("t");
+        std::fs::create_dir_all("t/d").expect("scratch tree");
+        std::fs::write("t/old.txt", "old").expect("scratch file");
+    }
     let mut interp = Interpreter::with_stdlib();
     let mut cells = Vec::new();
     for (name, ty, init) in case.cells {
@@ -322,7 +343,15 @@ fn run_case_child(index: usize) -> i32 {
 fn main() {
     let args: Vec<String> = std::env::args().collect();
     if args.len() >= 3 && args[1] == "--case" {
-        std::process::exit(run_case_child(args[2].parse().unwrap()));
+        // file-system harnesses use relative paths below a scratch directory of this child
+        let exe = std::env::current_exe().unwrap();
+        let scratch = exe.parent().unwrap().join(format!("fs-scratch-{}", std::process::id()));
+        let _ = std::fs::create_dir_all(&scratch);
+        let _ = std::env::set_current_dir(&scratch);
+        let code = run_case_child(args[2].parse().unwrap());
+        let _ = std::env::set_current_dir(exe.parent().unwrap());
+        let _ = std::fs::remove_dir_all(&scratch);
+        std::process::exit(code);
     }
     // parent: ./loomcheck C16 <quick|thorough> | ./loomcheck C16 --replay <path>
     let tier = args.get(2).map(|s| s.as_str()).unwrap_or("quick").to_string();
@@ -437,13 +466,21 @@ fn main() {
             "rule": "each harness is a loom model over the real interpreter: worker threads execute shared Code / Function values; every interleaving of their lock operations (DPOR; preemption bound where stated) is executed; the per-thread results and final cell contents must equal those of some sequential order of the same programs (computed by running the real interpreter sequentially in every order); loom reports deadlocks; a poisoned lock or a panic fails the execution",
         },
         "assumptions": [
-            "scheduling points are the operations on cell locks and on every other std::sync lock / atomic in the sources (redirected to loom by loomcheck/instrument.py; thread_local!, static mut and objects of other crates are not); the crates contain no unsafe code; for harnesses whose runs share no cell every order of these operations across threads is explored (a world variable makes them conflict), so state shared outside cells shows as a difference from the result each run gives alone; code between two consecutive synchronisation operations of one thread is not interleaved",
+            "scheduling points are the operations on cell locks, on every other std::sync lock / atomic in the sources and every std::fs call of the sources (redirected to loom objects by loomcheck/instrument.py; thread_local!, static mut and objects of other crates are not); the crates contain no unsafe code; for harnesses whose runs share no cell every order of these operations across threads is explored (a world variable makes them conflict), so state shared outside cells shows as a difference from the result each run gives alone; code between two consecutive synchronisation operations of one thread is not interleaved",
             "loom does not model the writer preference of std's RwLock; the facade therefore keeps a book of lock acquisitions per execution and a thread that re-takes a cell lock it holds, in an execution where another thread writes that cell, is reported (such a pair deadlocks when the writer queues between the two acquisitions)",
             "lazy_static first-use races are std::sync::Once's responsibility"
         ],
         "wall_s": start.elapsed().as_secs_f64(),
         "violations": violations.len(),
     });
+    // scratch trees of children that ended by a panic
+    if let Some(dir) = exe.parent() {
+        for entry in std::fs::read_dir(dir).into_iter().flatten().flatten() {
+            if entry.file_name().to_string_lossy().starts_with("fs-scratch-") {
+                let _ = std::fs::remove_dir_all(entry.path());
+            }
+        }
+    }
     std::fs::create_dir_all(format!("{root}/evidence")).unwrap();
     std::fs::write(format!("{root}/evidence/C16.json"), serde_json::to_string_pretty(&evidence).unwrap() + "\n").unwrap();
     println!("C16 {tier}: {} violation(s), {} harnesses, {} schedules, {:.1}s", violations.len(), selected.len(), executions, start.elapsed().as_secs_f64());
